@@ -298,6 +298,22 @@ def check(ctx):
                    msg="the framer scans with mask %s, decodeLength continues on %s" % (sorted(masks), sorted(cont)))
             # F6(a): decoded length reset after consumption
             names = [k for k, v in bp.st.env.items() if v == ret[0].a["val"]] if ret else []
+            # a local that every iteration assigns afresh before reading it (length = decodeLength(..) as a top-level statement of the
+            # loop body ahead of any use) cannot carry a value over
+            lnode = getattr(outer, "node", None)
+
+            def fresh_each_time(nm):
+                if not isinstance(lnode, (ast.While, ast.For)):
+                    return False
+                for s_ in lnode.body:
+                    reads = any(isinstance(x, ast.Name) and x.id == nm and isinstance(x.ctx, ast.Load) for x in ast.walk(s_))
+                    if isinstance(s_, ast.Assign) and len(s_.targets) == 1 and isinstance(s_.targets[0], ast.Name) and s_.targets[0].id == nm \
+                            and not any(isinstance(x, ast.Name) and x.id == nm for x in ast.walk(s_.value)):
+                        return True
+                    if reads or any(isinstance(x, ast.Name) and x.id == nm for x in ast.walk(s_)):
+                        return False
+                return False
+            names = [nm for nm in names if not (isinstance(nm, str) and fresh_each_time(nm))]
             ctx.ob("F6", "%s the decoded length is forgotten once its packet is consumed" % cq, bool(ret) and not names and bp.exit_kind() in ("fall", "continue"),
                    where=where(D), function=framer_q, construct="%s/stale-length" % framer_q,
                    msg="after consuming a packet the local(s) %s still hold its decoded length: the next packet is framed with a stale length" % names)
